@@ -112,7 +112,9 @@ class C07(core.Prop):
             return "model rejected the input"
         resp = [e[1] for e in obs["responses"]]
         for i, (dd, io, mo) in enumerate(zip(c["devices"], obs["devices"], mout)):
-            traces, st = mo
+            traces, st, allwf = mo
+            if not allwf:
+                return "device %d: the model emits a message that is not constructible over the live registry (wfb false)" % i
             d = drvcmp.compare_ops(dd["ops"], io["ops"], traces[:len(dd["ops"])], "device %d " % i)
             if d:
                 return d
